@@ -15,6 +15,7 @@ import (
 	"verif/checks/c12"
 	"verif/checks/c13"
 	"verif/checks/c14"
+	"verif/checks/c15"
 	"verif/checks/c16"
 	"verif/checks/c18"
 	"verif/checks/c20"
@@ -28,6 +29,7 @@ func main() {
 		"C05": c05.Check,
 		"C06": c06.Check,
 		"C14": c14.Check,
+		"C15": c15.Check,
 		"C02": c02.Check,
 		"C03": c03.Check,
 		"C07": c07.Check,
